@@ -423,8 +423,16 @@ ROUND6 = {
         "the encoder produces; an address is a Unix path exactly when it starts with '/', a literal is the address exactly when inet_pton answers 1; every member of an "
         "address object is stored before it is handed on.",
 }
+ROUND6["C03"] += (" The SSE2 message schedule is SHA-256's for every input (exact symbolic evaluation of MSG4 and its helpers over GF(2) with canonical sums; the flow of "
+                  "schedule vectors through the transform), and the SSE2 file's rounds and round constants are FIPS 180-4's.")
+ROUND6["C01"] += " The HMAC pads are XORed with exactly the key's bytes into freshly initialised contexts; the word-vector helpers convert len/4 words in the hash's byte order; copies and wipes of the stack scratch stay inside their objects."
+ROUND6.setdefault("C02", "The AES-NI key object has room for every round key used.")
+ROUND6["C19"] = ROUND6.get("C19", "") + " A zero-length formatted string is not a failure; a failed strftime/gmtime_r is reported; results of status functions are compared with values they can return."
+ROUND6["C20"] = ROUND6.get("C20", "") + " A wipe covers its object and nothing beyond it."
+ROUND6["C15"] += " The key-file reader answers success only with both strings present."
 for _k, _v in ROUND6.items():
-    CLAIMS[_k]["text"] += " " + _v
+    CLAIMS[_k]["text"] += " " + _v.strip()
+CLAIMS["C03"]["technique"] += "; exact symbolic evaluation of SSE2 integer code (GF(2)-linear bit expressions, canonical modular sums)"
 for _k in CLAIMS:
     CLAIMS[_k]["text"] += (" On the property's anchored files, differentially against the pinned tree: the sign class of every constant returned, every parameter used, every member "
                            "a constructor stored or a destructor released; and definite assignment of scalar and pointer locals.")
